@@ -156,6 +156,26 @@ def _same(a, b, tol=1e-12):
     return ""
 
 
+def _run2(ctx, name, case, fpy, fcy, args, desc, post=None):
+    """runs both copies on private copies of the arguments and also checks that
+    neither of them writes into its arguments (the .pyx routines never do; a
+    Python copy that does differs observably on the next use of the object)"""
+    a1 = [v.copy() if isinstance(v, np.ndarray) else v for v in args]
+    a2 = [v.copy() if isinstance(v, np.ndarray) else v for v in args]
+    py = _run(fpy, *a1)
+    cy = _run(fcy, *a2)
+    for which, used in (("python", a1), ("pyx", a2)):
+        for k, (u, o) in enumerate(zip(used, args)):
+            if isinstance(o, np.ndarray) and not np.array_equal(u, o, equal_nan=True):
+                ctx.fail("argument_modified:" + name,
+                         "%s: the %s routine changed its argument %d from %r to %r; %s"
+                         % (name, which, k, o.tolist(), u.tolist(), desc))
+    if post is not None:
+        py, cy = post(py), post(cy)
+    _compare(ctx, name, case, py, cy, desc)
+    return py, cy
+
+
 def _compare(ctx, name, case, py, cy, desc):
     ctx.notes["routine:" + name] += 1
     if nontrivial(case):
@@ -182,27 +202,26 @@ def run_case(case, ctx):
     if case["kind"] == "add":
         f, g = case["f"], case["g"]
         ar = lambda d, k: np.array(d[k], dtype=float)
+        dsc = "f.x=%r g.x=%r" % (f["x"], g["x"])
         if case["which"] == "pwc":
             a = (ar(f, "x"), ar(f, "y"), ar(g, "x"), ar(g, "y"))
-            py = _run(pb.add_piece_wise_const_python, *[v.copy() for v in a])
-            cy = _run(S.fn("cython_add", "add_piece_wise_const_cython"), *[v.copy() for v in a])
-            _compare(ctx, "add_pwc", case, py, cy, "f.x=%r g.x=%r" % (f["x"], g["x"]))
+            _run2(ctx, "add_pwc", case, pb.add_piece_wise_const_python,
+                  S.fn("cython_add", "add_piece_wise_const_cython"), a, dsc)
         elif case["which"] == "pwl":
             a = (ar(f, "x"), ar(f, "y1"), ar(f, "y2"), ar(g, "x"), ar(g, "y1"), ar(g, "y2"))
-            py = _run(pb.add_piece_wise_lin_python, *[v.copy() for v in a])
-            cy = _run(S.fn("cython_add", "add_piece_wise_lin_cython"), *[v.copy() for v in a])
-            _compare(ctx, "add_pwl", case, py, cy, "f.x=%r g.x=%r" % (f["x"], g["x"]))
+            _run2(ctx, "add_pwl", case, pb.add_piece_wise_lin_python,
+                  S.fn("cython_add", "add_piece_wise_lin_cython"), a, dsc)
         else:
             a = (ar(f, "x"), ar(f, "y"), ar(f, "mp"), ar(g, "x"), ar(g, "y"), ar(g, "mp"))
-            py = _run(pb.add_discrete_function_python, *[v.copy() for v in a])
-            cy = _run(S.fn("cython_add", "add_discrete_function_cython"), *[v.copy() for v in a])
-            # the values of the two framing entries "never count": compare the rest
-            if py[0] == "ok" and cy[0] == "ok":
-                py = ("ok", tuple(np.asarray(v)[1:-1] if k else np.asarray(v)
-                                  for k, v in enumerate(py[1])))
-                cy = ("ok", tuple(np.asarray(v)[1:-1] if k else np.asarray(v)
-                                  for k, v in enumerate(cy[1])))
-            _compare(ctx, "add_discrete", case, py, cy, "f.x=%r g.x=%r" % (f["x"], g["x"]))
+
+            def strip(r):
+                # the values of the two framing entries "never count": compare the rest
+                if r[0] != "ok":
+                    return r
+                return ("ok", tuple(np.asarray(v)[1:-1] if k else np.asarray(v)
+                                    for k, v in enumerate(r[1])))
+            _run2(ctx, "add_discrete", case, pb.add_discrete_function_python,
+                  S.fn("cython_add", "add_discrete_function_cython"), a, dsc, strip)
         return
     t0, t1 = case["t0"], case["t1"]
     sa = np.array(case["trains"][0], dtype=float)
@@ -215,25 +234,22 @@ def run_case(case, ctx):
     c = lambda v: v.copy()
     P, D, R = "cython_profiles", "cython_distances", "cython_directionality"
 
-    py = _run(pb.isi_distance_python, c(ea), c(eb), t0, t1, m)
-    cy = _run(S.fn(P, "isi_profile_cython"), c(ea), c(eb), t0, t1, m)
-    _compare(ctx, "isi_profile", case, py, cy, desc)
+    py, cy = _run2(ctx, "isi_profile", case, pb.isi_distance_python,
+                   S.fn(P, "isi_profile_cython"), (ea, eb, t0, t1, m), desc)
     if py[0] == "ok":
         avg = _run(lambda: pyspike.PieceWiseConstFunc(*py[1]).avrg())
         cy = _run(S.fn(D, "isi_distance_cython"), c(ea), c(eb), t0, t1, m)
         _compare(ctx, "isi_distance", case, avg, cy, desc)
 
-    py = _run(pb.spike_distance_python, c(ea), c(eb), t0, t1, m, ri)
-    cy = _run(S.fn(P, "spike_profile_cython"), c(ea), c(eb), t0, t1, m, ri)
-    _compare(ctx, "spike_profile", case, py, cy, desc)
+    py, cy = _run2(ctx, "spike_profile", case, pb.spike_distance_python,
+                   S.fn(P, "spike_profile_cython"), (ea, eb, t0, t1, m, ri), desc)
     if py[0] == "ok":
         avg = _run(lambda: pyspike.PieceWiseLinFunc(*py[1]).avrg())
         cy = _run(S.fn(D, "spike_distance_cython"), c(ea), c(eb), t0, t1, m, ri)
         _compare(ctx, "spike_distance", case, avg, cy, desc)
 
-    py = _run(pb.coincidence_python, c(sa), c(sb), t0, t1, mt, m)
-    cy = _run(S.fn(P, "coincidence_profile_cython"), c(sa), c(sb), t0, t1, mt, m)
-    _compare(ctx, "coincidence_profile", case, py, cy, desc)
+    py, cy = _run2(ctx, "coincidence_profile", case, pb.coincidence_python,
+                   S.fn(P, "coincidence_profile_cython"), (sa, sb, t0, t1, mt, m), desc)
     if py[0] == "ok":
         tot = ("ok", (float(np.sum(py[1][1][1:-1])), float(np.sum(py[1][2][1:-1]))))
         cy = _run(S.fn(D, "coincidence_value_cython"), c(sa), c(sb), t0, t1, mt, m)
